@@ -150,17 +150,19 @@ Proof.
 Qed.
 Theorem macro_below x m x' : below x -> 0 < x_limit x -> macro x m = Some x' -> below x' /\ x_limit x' = x_limit x.
 Proof.
-  intros Hb Hl H. unfold macro in H.
-  match type of H with option_map _ ?o = _ => destruct o as [x1|] eqn:E; [|discriminate] end. cbn [option_map] in H. inversion H; subst x'.
+  intros Hb Hl H. unfold macro in H. cbv zeta in H.
+  match type of H with option_map (settle ?f) _ = _ => generalize dependent f end. intros fuel H.
+  match type of H with option_map _ ?o = _ => destruct o as [x1|] eqn:E; [|discriminate] end. cbn [option_map] in H.
+  injection H as Hx'. subst x'.
   assert (H1 : below x1 /\ x_limit x1 = x_limit x).
-  { destruct Hb as [Hx Hb]. 
+  { destruct Hb as [Hx Hb].
     assert (G : forall o, on_sys x o = Some x1 -> below x1 /\ x_limit x1 = x_limit x).
-    { intros o Ho. unfold on_sys in Ho. destruct o as [s'|]; [|discriminate]. inversion Ho. split; [split; [apply XInv_sys; exact Hx|exact Hb]|reflexivity]. }
-    destruct m; cbn in E;
+    { intros o Ho. unfold on_sys in Ho. destruct o as [s'|]; [|discriminate]. injection Ho as Ho. subst x1. split; [split; [apply XInv_sys; exact Hx|exact Hb]|reflexivity]. }
+    destruct m; cbn [on_sys] in E;
       repeat match type of E with
              | context [match ?c with _ => _ end] => destruct c; try discriminate
              end; eapply G; exact E. }
-  destruct H1 as [Hb1 Hl1]. destruct (settle_below 2000 x1 Hb1 ltac:(lia)) as [A B]. split; [exact A|lia].
+  destruct H1 as [Hb1 Hl1]. destruct (settle_below fuel x1 Hb1 ltac:(lia)) as [A B]. split; [exact A|lia].
 Qed.
 (* every state the scheduler reaches from the empty cache reports a size below the limit *)
 Theorem size_bound : forall limit ms x, 0 < limit ->
@@ -171,7 +173,7 @@ Proof.
   assert (G : forall ms x0, below x0 -> x_limit x0 = limit ->
      fold_left (fun o m => match o with Some x => macro x m | None => None end) ms (Some x0) = Some x -> x_total x < limit /\ x_limit x = limit).
   { clear ms. induction ms as [|m r IH]; intros x0 Hb Hl0 H; cbn [fold_left] in H.
-    - inversion H; subst. split; [rewrite <- Hl0; apply Hb|exact Hl0].
+    - injection H as Hx. subst x0. split; [rewrite <- Hl0; apply Hb|exact Hl0].
     - destruct (macro x0 m) as [x1|] eqn:E.
       + destruct (macro_below x0 m x1 Hb ltac:(lia) E) as [Hb1 Hl1]. apply (IH x1 Hb1); [lia|exact H].
       + exfalso. clear -H. induction r as [|y r IHr]; cbn in H; [discriminate|auto]. }
